@@ -603,7 +603,14 @@ pub fn encode(p: &Placement, config_path: Option<&str>) -> Encoded {
     if let Some(v) = &p.envparam_value {
         // the same key twice (`git -c delta.x=a -c delta.x=b`): the last entry counts
         if probe.ty == PType::Str && spelling_of(p) % 2 == 1 {
-            params.push(param(&format!("delta.{}", p.probe), "earlier-entry-that-loses"));
+            // ... half of the time in the other of the two syntaxes git has used
+            let k = format!("delta.{}", p.probe);
+            let other = (spelling_of(p) / 4) % 2 == 1;
+            if other == new_syntax {
+                params.push(format!("'{}={}'", k, "earlier-entry-that-loses"));
+            } else {
+                params.push(format!("'{}'='{}'", k, "earlier-entry-that-loses"));
+            }
         }
         params.push(param(&format!("delta.{}", p.probe), v));
     }
